@@ -354,9 +354,10 @@ func (p *Parser) parseHexString() (core.Object, error) {
 		p.pos++
 		// Read second hex digit (if available)
 		if p.pos >= len(p.data) || p.data[p.pos] == '>' {
-			// Odd number of digits - assume trailing 0
+			// Odd number of digits - assume trailing 0; the '>' that
+			// ends the string is consumed at the top of the loop
 			result.WriteByte(hexValue(c) << 4)
-			break
+			continue
 		}
 
 		c2 := p.data[p.pos]
@@ -365,7 +366,7 @@ func (p *Parser) parseHexString() (core.Object, error) {
 			p.skipWhitespace()
 			if p.pos >= len(p.data) || p.data[p.pos] == '>' {
 				result.WriteByte(hexValue(c) << 4)
-				break
+				continue
 			}
 			c2 = p.data[p.pos]
 		}
